@@ -130,6 +130,12 @@ Theorem C05_irreducible_Z_degree_certificates : forall (f : seq Z) (certs : seq 
 Proof. exact irred_Z_cert_sound. Qed.
 Print Assumptions C05_irreducible_Z_degree_certificates.
 
+(* ... hence (Gauss' lemma, mathcomp intdiv) irreducible over the rationals *)
+Theorem C05_irreducible_Q_degree_certificates : forall (f : seq Z) (certs : seq modcert),
+  irred_Z_cert f certs = true -> irreducible_poly (PQ f).
+Proof. exact irred_Z_cert_rat. Qed.
+Print Assumptions C05_irreducible_Q_degree_certificates.
+
 (* one modular certificate: the degree of any divisor is a sub-sum of the modular factor degrees *)
 Theorem C05_divisor_degree_is_subsum : forall (f : seq Z) (mc : modcert) (g h : {poly Z}),
   modcert_ok f mc = true -> Poly f = g * h ->
@@ -174,25 +180,38 @@ Theorem C05_pth_root : forall p, prime p -> forall f g : seq Z,
 Proof. exact div_degrees_spec. Qed.
 Print Assumptions C05_pth_root.
 
-(* PARTIAL: the whole functions multiply back up to a constant factor u (u = 1 needs the reference gcd to return
-   primitive / monic polynomials, which is not proved here - full statements below) *)
+(* FULL over Z: lp_upolynomial_factor_square_free as coded (content with sign, x^k split off, Yun loop on the
+   primitive part with the reference gcd) multiplies back EXACTLY, for every input and every fuel *)
+Theorem C05_factor_square_free_Z_multiply_back : forall fuel f c fs,
+  factor_square_free_Z fuel f = Some (c, fs) -> Poly f = c *: uprodP fs.
+Proof. exact factor_square_free_Z_multiply_back. Qed.
+Print Assumptions C05_factor_square_free_Z_multiply_back.
+
+(* upolynomial_factor_square_free_primitive under its C precondition (primitive, positive leading coefficient) *)
+Theorem C05_sqfree_prim_Z_multiply_back : forall fuel f c fs,
+  pcontent f = 1%ZZ -> (0 < plc f)%ZZ ->
+  sqfree_prim_Z fuel f = Some (c, fs) -> Poly f = c *: uprodP fs.
+Proof. exact sqfree_prim_Z_multiply_back. Qed.
+Print Assumptions C05_sqfree_prim_Z_multiply_back.
+
+(* ... and without the precondition, up to the constant left in P and L *)
 Theorem C05_sqfree_prim_Z_multiply_back_partial : forall fuel f c fs,
   sqfree_prim_Z fuel f = Some (c, fs) -> exists u : Z, Poly f = (u * c) *: uprodP fs.
 Proof. exact sqfree_prim_Z_multiply_back_partial. Qed.
 Print Assumptions C05_sqfree_prim_Z_multiply_back_partial.
 
-Theorem C05_factor_square_free_Z_multiply_back_partial : forall fuel f c fs,
-  factor_square_free_Z fuel f = Some (c, fs) -> exists u : Z, Poly f = (u * c) *: uprodP fs.
-Proof. exact factor_square_free_Z_multiply_back_partial. Qed.
-Print Assumptions C05_factor_square_free_Z_multiply_back_partial.
+(* the reference gcd has a non-negative leading coefficient (what makes the left-over constant +1) *)
+Theorem C05_pgcd_lc_nonneg : forall a b : seq Z, (0 <= plc (pgcd a b))%ZZ.
+Proof. exact plc_pgcd_ge0. Qed.
+Print Assumptions C05_pgcd_lc_nonneg.
 
+(* PARTIAL over Z_p: both p-th-root branches included; multiplies back up to a constant u of F_p (u = 1 needs
+   the modular gcd of the model to be monic, not proved - full statement below) *)
 Theorem C05_sqfree_prim_Zp_multiply_back_partial : forall p, prime p -> forall fuel f c fs,
   sqfree_prim_Zp (Z.of_nat p) fuel f = Some (c, fs) -> exists u : 'F_p, PF p f = u *: uprodF p fs.
 Proof. exact sqfree_prim_Zp_multiply_back_partial. Qed.
 Print Assumptions C05_sqfree_prim_Zp_multiply_back_partial.
 
-Definition C05_factor_square_free_Z_multiply_back_full_statement : Prop :=
-  forall fuel f c fs, factor_square_free_Z fuel f = Some (c, fs) -> Poly f = c *: uprodP fs.
 Definition C05_sqfree_prim_Zp_multiply_back_full_statement : Prop :=
   forall p, prime p -> forall fuel f c fs, PF p f \is monic ->
   sqfree_prim_Zp (Z.of_nat p) fuel f = Some (c, fs) -> PF p f = toFp p c *: uprodF p fs.
